@@ -60,7 +60,9 @@ def placeholder_items():
             lit = " / ".join("{%s}" % x for x in combo)
             vs.append(Variant("N%d" % n, "named", [Field(f.ty, f.name) for f in fields], [tos("n%d: %s" % (n, lit))]))
     extra = ["{f:>5}|{bb:^9}|{c_3:+}", "{{{f}}}", "{{f}} {f}", "{f}{f}{f}", "{bb:.2}", "{c_3:08}", "{f:#x} {f:#b}", "}}{{ {bb} }}{{",
-             "{f }", "{bb:é^7}", "{c_3:<+6}"]
+             "{f }", "{bb:é^7}", "{c_3:<+6}",
+             # `:` as the FILL character: the name ends at the FIRST colon
+             "{f::>6}", "{bb::^9}|{c_3::<+7}"]
     for e in extra:
         n += 1
         vs.append(Variant("N%d" % n, "named", [Field(f.ty, f.name) for f in fields], [tos(e)]))
